@@ -198,7 +198,7 @@ class DictArray(StorageBase):
         """Load the dict storage from disk."""
         if self.folder is None:  # pragma: no cover
             return
-        if not self.folder.exists():
+        if not self._path().is_file():
             return
         # Update in place to keep the backing mapping (might be a proxy shared with subprocesses)
         self._dict.update(load(self._path()))
